@@ -18,8 +18,11 @@
 #include "vf_thr.h"
 using namespace tulz;
 // marker functions: the fields they address are declared racy (every access becomes a scheduling point)
-extern "C" void *__vf_racy_field_pool_running(ThreadPool *p) { return &p->m_isRunning; }
-extern "C" void *__vf_racy_field_thread_finished(Thread *t) { return &t->m_isFinished; }
+// (only plain fields: an atomic field has its own scheduling point per operation, a second one would also misalign the native replay)
+template<class T> static inline void *racy_addr(T *) { return nullptr; }
+static inline void *racy_addr(bool *p) { return p; }
+extern "C" void *__vf_racy_field_pool_running(ThreadPool *p) { return racy_addr(&p->m_isRunning); }
+extern "C" void *__vf_racy_field_thread_finished(Thread *t) { return racy_addr(&t->m_isFinished); }
 #ifndef NTASK
 #define NTASK 2
 #endif
@@ -37,6 +40,10 @@ struct Task : Runnable {
     __vf_check(canary == 0x5a5a && destroyed[id] == 0, "C07: a task is never run after (or while) it is destroyed");
     __vf_check(entered[id] == 0, "C07: a task is executed at most once");
     __vf_check(!stop_returned, "C07: no task starts running after stop() has returned");
+#if MAXTHREADS == 1
+    // single worker: when a task starts, every task submitted before it has already been started or has been destroyed unrun (clear/stop)
+    for (int j = 0; j < NTASK; j++) if (j < id) __vf_check(entered[j] != 0 || destroyed[j] != 0, "C07: with a single worker tasks run in submission order");
+#endif
     entered[id]++; runner[id] = __vf_self(); order[norder++] = id;
     __vf_yield();                                  // the task takes a while: other threads may run
     exited[id]++; done_count++;
